@@ -17,6 +17,7 @@ const W_EOF_SEEN: u64 = 1;
 const W_BROKEN_PIPE: u64 = 2;
 const W_HALF_CLOSE_DATA: u64 = 4;
 const W_RESET: u64 = 8;
+const W_CONN_END: u64 = 16;
 
 fn alphabet() -> Vec<Op> {
     vec![Op::W(2), Op::W(0), Op::WV(vec![]), Op::WV(vec![0, 0]), Op::WV(vec![1, 0, 1]), Op::Shutdown, Op::ReadToEof(3), Op::ReadOnce(1), Op::Drop]
@@ -48,6 +49,8 @@ fn histories(max_len: usize) -> Vec<Vec<Op>> {
 
 pub struct Checker {
     pub tag: u8,
+    /// the application of this side let go of its Multiplexor: the connection is being closed in an orderly way
+    pub conn_end: Option<usize>,
     /// the stream under test is the only one (pending accept/open tasks are its concern too)
     pub solo: bool,
     mon: WireMon,
@@ -69,7 +72,7 @@ pub fn push_viol(v: &mut Vec<(String, String)>, key: &str, desc: String) {
 
 impl Checker {
     pub fn new(tag: u8) -> Self {
-        Self { tag, solo: true, mon: WireMon::new(), seen_events: 0, violations: Vec::new(), witnesses: 0, fps: Vec::new(), absent_prev: [true, true], established: [false, false], frames_seen: 0 }
+        Self { tag, conn_end: None, solo: true, mon: WireMon::new(), seen_events: 0, violations: Vec::new(), witnesses: 0, fps: Vec::new(), absent_prev: [true, true], established: [false, false], frames_seen: 0 }
     }
 
     pub fn after_step(&mut self, w: &World, step: &Step, item: Option<&crate::link::Item>) {
@@ -102,7 +105,23 @@ impl Checker {
                     let shut = before.iter().any(|x| matches!(x, Ev::Shutdown { dir: d, res: Ok(()), .. } if d == dir));
                     let dropped = before.iter().any(|x| matches!(x, Ev::Dropped { side, .. } if *side == wside));
                     let led = obs.dirs.get(&(mytag, *dir)).cloned().unwrap_or_default();
-                    if !shut && !dropped {
+                    if self.conn_end.is_some() {
+                        // the connection ended: end-of-stream is due, but only after everything the peer had
+                        // TRANSMITTED before the end (what it had merely queued is legitimately lost)
+                        let fid = obs.flow_ids.get(&(mytag, wside)).copied();
+                        let on_wire: Vec<u8> = self.mon.frames.iter().filter(|(s, f)| *s == wside && Some(f.id()) == fid).filter_map(|(_, f)| if let crate::codec::RFrame::Push { data, .. } = f { Some(data.clone()) } else { None }).flatten().collect();
+                        // frames still in flight towards a reader whose own side closed are drained before the end;
+                        // a reader on the side that did NOT close loses what was in flight when its task saw Close
+                        // (whichever side closed: frames precede the Close of their sender on the wire, and the closing
+                        // side drains until it sees the peer's Close)
+                        if led.read != on_wire {
+                            push_viol(
+                                &mut self.violations,
+                                "eof.before-transmitted-data",
+                                format!("the connection was closed in an orderly way by side {:?}; {:02x?} had been transmitted on direction {dir} before the end but the reader got {:02x?} and then end-of-stream", self.conn_end, on_wire, led.read),
+                            );
+                        }
+                    } else if !shut && !dropped {
                         push_viol(
                             &mut self.violations,
                             "eof.spurious",
@@ -155,7 +174,7 @@ impl Checker {
                             if k != "BrokenPipe" {
                                 push_viol(&mut self.violations, "write.error-kind", format!("write failed with {k}, expected BrokenPipe"));
                             }
-                            if !own_shutdown && !peer_dropped {
+                            if !own_shutdown && !peer_dropped && self.conn_end.is_none() {
                                 push_viol(
                                     &mut self.violations,
                                     "write.spurious-brokenpipe",
@@ -247,7 +266,9 @@ impl Checker {
                     let dropped = obs.events.iter().any(|x| matches!(x, Ev::Dropped { tag, side: s } if *s == wside && *tag == t0));
                     let led = obs.dirs.get(&(self.tag, rdir)).cloned().unwrap_or_default();
                     let data_left = led.read.len() < led.written.len();
-                    if shut || dropped || data_left {
+                    if self.conn_end.is_some() {
+                        push_viol(&mut self.violations, "hang.read-after-connection-end", format!("the connection was closed, yet {name} is still blocked in a read on direction {rdir}"));
+                    } else if shut || dropped || data_left {
                         push_viol(
                             &mut self.violations,
                             "stall.read",
@@ -292,7 +313,7 @@ impl Checker {
     }
 }
 
-fn exec(a_ops: &[Op], b_ops: &[Op], render: bool) -> RunOutput {
+fn exec(a_ops: &[Op], b_ops: &[Op], with_drop: bool, render: bool) -> RunOutput {
     let a = SideCfg { opts: opts(8, 1), rng: vec![] };
     let b = SideCfg { opts: opts(8, 2), rng: vec![] };
     let mut w = World::two(UNBOUNDED_CAP, &a, &b);
@@ -311,12 +332,29 @@ fn exec(a_ops: &[Op], b_ops: &[Op], render: bool) -> RunOutput {
         if en.is_empty() {
             break;
         }
-        let c = choose_n(en.len(), Cost::Sched);
+        let c = if with_drop && ck.conn_end.is_none() && w.obs.borrow().flow_ids.len() == 2 {
+            // once both ends hold the stream: either application may let go of its Multiplexor (the stream lives on)
+            let mut kinds = vec![Cost::Sched; en.len()];
+            kinds.push(Cost::Fault);
+            kinds.push(Cost::Fault);
+            crate::explore::choose(&kinds)
+        } else {
+            choose_n(en.len(), Cost::Sched)
+        };
+        if c >= en.len() {
+            let side = c - en.len();
+            w.drop_mux(side);
+            ck.conn_end = Some(side);
+            ck.witnesses |= W_CONN_END;
+            w.sim.log.push(Step::Extra(side));
+            continue;
+        }
         let step = en[c].clone();
         let item = w.sim.apply(&step);
         ck.after_step(&w, &step, item.as_ref());
     }
-    ck.at_end(&w, horizon, true);
+    let leak = ck.conn_end.is_none();
+    ck.at_end(&w, horizon, leak);
     let mut h = Fnv::default();
     for e in &w.obs.borrow().events {
         h.str(&format!("{e:?}"));
@@ -340,10 +378,18 @@ pub fn run(args: &Args) -> Report {
     let len = if thorough { 3 } else { 2 };
     let hs = histories(len);
     let mut cases = Vec::new();
+    // orderly connection end while the stream is in use: either application drops its Multiplexor at any point
+    let hs_small = histories(if thorough { 2 } else { 1 });
+    for a in &hs_small {
+        for b in &hs_small {
+            let (a2, b2) = (a.clone(), b.clone());
+            cases.push(Case { try_unbounded: false, max_k: 1, label: format!("A:[{}] B:[{}] + either Multiplexor dropped at any point", op_str(a), op_str(b)), exec: Box::new(move |r| exec(&a2, &b2, true, r)) });
+        }
+    }
     for a in &hs {
         for b in &hs {
             let (a2, b2) = (a.clone(), b.clone());
-            cases.push(Case { try_unbounded: false, max_k: u32::MAX, label: format!("A:[{}] B:[{}]", op_str(a), op_str(b)), exec: Box::new(move |r| exec(&a2, &b2, r)) });
+            cases.push(Case { try_unbounded: false, max_k: u32::MAX, label: format!("A:[{}] B:[{}]", op_str(a), op_str(b)), exec: Box::new(move |r| exec(&a2, &b2, false, r)) });
         }
     }
     rep.bounds.insert("history_length_per_end".into(), serde_json::json!(len));
@@ -352,11 +398,11 @@ pub fn run(args: &Args) -> Report {
     let plan = Plan {
         ks: if thorough { vec![0, 1, 2] } else { vec![0, 1, 2] },
         env: 0,
-        fault: 0,
+        fault: 1,
         total_wall: Duration::from_secs(if thorough { 1500 } else { 30 }),
         max_execs_per_case: 100_000,
-        required_witnesses: W_EOF_SEEN | W_BROKEN_PIPE | W_HALF_CLOSE_DATA | W_RESET,
-        witness_names: &[("eof_observed", W_EOF_SEEN), ("broken_pipe_observed", W_BROKEN_PIPE), ("data_flowed_after_half_close", W_HALF_CLOSE_DATA), ("reset_on_wire", W_RESET)],
+        required_witnesses: W_EOF_SEEN | W_BROKEN_PIPE | W_HALF_CLOSE_DATA | W_RESET | W_CONN_END,
+        witness_names: &[("eof_observed", W_EOF_SEEN), ("broken_pipe_observed", W_BROKEN_PIPE), ("data_flowed_after_half_close", W_HALF_CLOSE_DATA), ("reset_on_wire", W_RESET), ("orderly_connection_end_injected", W_CONN_END)],
     };
     rep.rule = "psim: one stream between two real endpoints; EVERY pair of operation histories (alphabet above, length <= L per end, implicit drop at the end, operations continue after a failed write) x every schedule with <= k deviations; reference model per direction = byte queue + {open, finished, aborted}: a read may return 0 only after the writer's shutdown/drop and only with all accepted bytes returned; writes after own shutdown or after the processed peer abort must fail with BrokenPipe; BrokenPipe needs a cause; no Push after own Finish on the wire; a blocked read needs a reason to block; flow tables empty at the end".into();
     rep.assumptions = vec![
